@@ -74,8 +74,14 @@ class Driver:
             return self.call('metavar', rng.choice((0, 1, 2)))
         ef, sf, pos, neg, holes = gp.rand_constraints(rng)
         P = self.P
+        r2 = rng.random()
+        if r2 < 0.15:
+            ef, sf, pos, neg = (), (), (), ()          # application-context holes as the only constraint
+            holes = tuple(sorted(rng.sample((0, 1, 2, 3), rng.randint(1, 2))))
+        elif r2 < 0.3:
+            holes = tuple(v for v in (3, 4) if rng.random() < 0.6 and v not in ef)
         return self.call('metavar', rng.choice((0, 1, 2)), tuple(P.EVar(i) for i in ef), tuple(P.SVar(i) for i in sf),
-                         tuple(P.SVar(i) for i in pos), tuple(P.SVar(i) for i in neg), ())
+                         tuple(P.SVar(i) for i in pos), tuple(P.SVar(i) for i in neg), tuple(P.EVar(i) for i in holes))
 
     def build(self, depth):
         """push one random pattern using raw calls only; returns it"""
